@@ -201,8 +201,9 @@ pub fn check(ctx: &mut Ctx) {
 	];
 	ctx.run_sub(&Bookkeeping);
 	ctx.run_sub(&crate::props::c06m::ModuleLevel);
+	ctx.run_sub(&crate::props::c06m::GivenUpByMiddleware);
 }
 
 pub fn replay(file: &serde_json::Value) -> Option<i32> {
-	replay_with(&Bookkeeping, file, "C06").or_else(|| replay_with(&crate::props::c06m::ModuleLevel, file, "C06"))
+	replay_with(&Bookkeeping, file, "C06").or_else(|| replay_with(&crate::props::c06m::ModuleLevel, file, "C06")).or_else(|| replay_with(&crate::props::c06m::GivenUpByMiddleware, file, "C06"))
 }
